@@ -28,6 +28,9 @@ var c09OpSets = map[string][]ref.Op{
 	"words":   {{Sym: "in", BP: 6, Fixity: "infixn"}, {Sym: "int", BP: 10, Fixity: "prefix"}, {Sym: "not", BP: 10, Fixity: "prefix"}, {Sym: "and", BP: 4, Fixity: "infixl"}, {Sym: "t", BP: 11, Fixity: "postfix"}},
 	"unicode": {{Sym: "é", BP: 7, Fixity: "infixl"}, {Sym: "éé", BP: 8, Fixity: "infixl"}, {Sym: "x_", BP: 10, Fixity: "prefix"}},
 	"empty":   {},
+	// the prefix-overlapping symbols declared in two more orders (registration must sort them)
+	"overlap-mixed": {{Sym: "=", BP: 5, Fixity: "infixn"}, {Sym: "<", BP: 6, Fixity: "infixn"}, {Sym: "=>", BP: 5, Fixity: "infixr"}, {Sym: "<=>", BP: 6, Fixity: "infixn"}, {Sym: "+", BP: 7, Fixity: "infixl"}, {Sym: "<=", BP: 6, Fixity: "infixn"}, {Sym: "-", BP: 7, Fixity: "infixl"}},
+	"overlap-short-first": {{Sym: "<", BP: 6, Fixity: "infixn"}, {Sym: "=", BP: 5, Fixity: "infixn"}, {Sym: "<=", BP: 6, Fixity: "infixn"}, {Sym: "+", BP: 7, Fixity: "infixl"}},
 	// pairs of sets whose symbols, written one after the other, give the same text
 	"glue-a": {{Sym: "<", BP: 6, Fixity: "infixn"}, {Sym: "==", BP: 5, Fixity: "infixn"}, {Sym: "+", BP: 7, Fixity: "infixl"}},
 	"glue-b": {{Sym: "<=", BP: 6, Fixity: "infixn"}, {Sym: "=", BP: 5, Fixity: "infixn"}, {Sym: "+", BP: 7, Fixity: "infixl"}},
@@ -36,7 +39,7 @@ var c09OpSets = map[string][]ref.Op{
 	"caret":   {{Sym: "ˆ", BP: 9, Fixity: "infixr"}, {Sym: "ˆˆ", BP: 9, Fixity: "infixr"}, {Sym: ".ˆ.", BP: 7, Fixity: "infixl"}, {Sym: "+ˆ", BP: 7, Fixity: "infixl"}, {Sym: "+", BP: 7, Fixity: "infixl"}},
 }
 
-var c09SetOrder = []string{"builtin", "overlap", "dotq", "words", "unicode", "empty", "caret", "glue-a", "glue-b", "glue-c", "glue-d"}
+var c09SetOrder = []string{"builtin", "overlap", "dotq", "words", "unicode", "empty", "caret", "overlap-mixed", "overlap-short-first", "glue-a", "glue-b", "glue-c", "glue-d"}
 
 func c09Ops(name string) []ref.Op {
 	if name == "builtin" {
@@ -52,8 +55,8 @@ func (c09) Meta(tier string) engine.Meta {
 	}
 	return engine.Meta{
 		Level: "model_checking",
-		Rule: fmt.Sprintf("all strings of <= %d atoms over the %d-atom mixed alphabet %q, under 11 operator sets (two pairs of sets whose symbols concatenate to the same text: {<, ==} / {<=, =} and {an, d} / {and}; built-in; with the non-ASCII operator character ˆ; prefix-overlapping symbolic < <= <=> = =>; containing . and ? : .. .^. ?: ??; identifier-like with common prefixes in int not and t; non-ASCII identifier-like; empty). A case is one (operator set, first two atoms) pair; its run enumerates every suffix. Oracle: (a) model-free: tokens in source order, no overlap, gaps are white space only, runes[Idx:IdxEnd] == Lexeme, Line / Col recomputed from the text; (b) the token sequence (kind, lexeme, span) equals the hand-written reference scanner's; error iff the reference errors. non-trivial = strings with >= 2 atoms", n, len(c09Atoms), c09Atoms),
-		Bound: fmt.Sprintf("%d atoms per string, 11 operator sets", n),
+		Rule: fmt.Sprintf("all strings of <= %d atoms over the %d-atom mixed alphabet %q, under 13 operator sets (the prefix-overlapping set in three declaration orders; two pairs of sets whose symbols concatenate to the same text: {<, ==} / {<=, =} and {an, d} / {and}; built-in; with the non-ASCII operator character ˆ; prefix-overlapping symbolic < <= <=> = =>; containing . and ? : .. .^. ?: ??; identifier-like with common prefixes in int not and t; non-ASCII identifier-like; empty). A case is one (operator set, first two atoms) pair; its run enumerates every suffix. Oracle: (a) model-free: tokens in source order, no overlap, gaps are white space only, runes[Idx:IdxEnd] == Lexeme, Line / Col recomputed from the text; (b) the token sequence (kind, lexeme, span) equals the hand-written reference scanner's; error iff the reference errors. non-trivial = strings with >= 2 atoms", n, len(c09Atoms), c09Atoms),
+		Bound: fmt.Sprintf("%d atoms per string, 13 operator sets", n),
 		Assumptions: []string{"the literal grammars of lexer/factory.go (README: 'lexicon: lexer/factory.go') are the documented lexical grammar, re-implemented by hand without regexp", "unicode.IsSpace / IsLetter are shared library code"},
 	}
 }
